@@ -674,10 +674,11 @@ Print Assumptions C17_example_run_renumber.
 (** C17_restriction (examples): the example generated from a word stream on the restricted
     registry at the retained id [pi id] is THE example generated from the same word stream on the
     full registry at [id].  No hypothesis on the registry.  PARTIAL: one direction - a successful
-    restricted run is the same successful full run; that a successful full run (or a failing one)
-    is reproduced by the restricted registry needs closedness and is not proved here (it is
-    evaluated per retained id and seed by [prop_example_retained]).  With [C12_returns] on the
-    restricted registry both examples exist and are equal: [C17_example_restriction_same_value_safe]. *)
+    restricted run is the same successful full run; without closedness of the restricted registry
+    the converse is false (a full run may leave the prefix).  The equation between the two outcomes
+    on a closed restricted registry is [C17_example_restriction_same_outcome] below; with
+    [C12_returns] on the restricted registry both examples exist and are equal:
+    [C17_example_restriction_same_value_safe]. *)
 Theorem C17_example_restriction_same_value_partial :
   forall pi k r id ws v,
     renumbering (N.of_nat (List.length r)) pi ->
@@ -741,3 +742,17 @@ Theorem C17_has_type_restriction_eq :
     V.Model.ExampleValue.has_typeb (restrict pi k r) (pi id) v = V.Model.ExampleValue.has_typeb r id v.
 Proof. exact V.Proofs.HasTypeFuel.has_typeb_restriction_eq. Qed.
 Print Assumptions C17_has_type_restriction_eq.
+
+(** C17_restriction (examples), full form: on a closed restricted registry the example run at a
+    retained id [pi id] has THE outcome of the run on the full registry at [id] from the same word
+    stream - the same value, or the same error ([xmap pi]: the id inside "recursive type" / "not
+    found" is the renamed one), never a panic or fuel exhaustion on one side only.  Rests on
+    [C12_total] (the fuel [S (length r)] never runs out, so the two different fuels do not matter). *)
+Theorem C17_example_restriction_same_outcome :
+  forall pi k r id ws,
+    renumbering (N.of_nat (List.length r)) pi -> closed (restrict pi k r) ->
+    in_reg (restrict pi k r) (pi id) ->
+    V.Model.ExampleValue.example_value (restrict pi k r) (pi id) ws =
+    V.Proofs.ExampleRestrictValue.xmap pi (V.Model.ExampleValue.example_value r id ws).
+Proof. exact V.Proofs.ExampleRestrictValue.example_restriction_same_outcome. Qed.
+Print Assumptions C17_example_restriction_same_outcome.
